@@ -228,8 +228,34 @@ c20_pattern!(c20_q_s_pattern_gray4, Gray4, ["0123456", "789ABCD", "EF     "], 3,
 c20_pattern!(c20_q_s_pattern_gray2, Gray2, ["   ", "0 3", "   "], 3, 3);
 c20_pattern!(c20_q_s_pattern_empty, BinaryColor, [], 0, 0);
 
-/// Debug output of a display whose first `$rows` rows are symbolic and the rest untouched: header,
+/// Debug output of `d`, whose last non-empty row is row `rows - 1` (rows == 0: empty display): header,
 /// one line of 8 cell characters per row up to the last non-empty row, the skipped-rows note, "]"
+fn debug_claims(d: &MockDisplay<BinaryColor>, rows: usize) {
+    let mut s = Sink { buf: [0; 192], n: 0, non_ascii: false };
+    write!(&mut s, "{:?}", d).unwrap();
+    let mut ok = true;
+    let mut i = 0;
+    while i < HEADER.len() { if s.buf[i] != HEADER[i] { ok = false; } i += 1; }
+    check!(ok, "C20.debug_header");
+    let q = cellq();
+    if (q.y as usize) < rows {
+        let ch = s.buf[HEADER.len() + q.y as usize * 9 + q.x as usize];
+        let want = match d.get_pixel(q) { None => b' ', Some(BinaryColor::Off) => b'.', Some(BinaryColor::On) => b'#' };
+        note!("q", q); note!("char", ch as char); note!("want", want as char);
+        check!(ch == want, "C20.debug_cell_char");
+        check!(s.buf[HEADER.len() + q.y as usize * 9 + 8] == b'\n', "C20.debug_row_break");
+    }
+    let rest = HEADER.len() + rows * 9;
+    if rows < 8 {
+        check!(s.buf[rest] == b'(' && s.buf[rest + 1] == b'0' + (8 - rows) as u8 && s.buf[rest + 2] == b' ', "C20.debug_rows_skipped");
+        check!(s.n > 2 && s.buf[s.n - 2] == b']' && s.buf[s.n - 1] == b'\n', "C20.debug_footer");
+    } else {
+        check!(s.n == rest + 2 && s.buf[rest] == b']' && s.buf[rest + 1] == b'\n', "C20.debug_footer");
+    }
+    check!(!s.non_ascii, "C20.debug_ascii");
+}
+
+/// the first `$rows` rows symbolic, the rest untouched
 macro_rules! c20_debug {
     ($name:ident, $rows:expr) => {
         #[cfg_attr(kani, kani::proof, kani::unwind(66))]
@@ -242,34 +268,33 @@ macro_rules! c20_debug {
             // the last symbolic row is made non-empty IN ITS FIRST CELL so that the search for trailing empty
             // rows ends on a concrete value and the number of printed rows is concrete
             if $rows > 0 { d.set_pixel(Point::new(0, $rows - 1), Some(binary())); }
-            let mut s = Sink { buf: [0; 192], n: 0, non_ascii: false };
-            write!(&mut s, "{:?}", d).unwrap();
-            let rows: usize = $rows as usize;
-            let mut ok = true;
-            let mut i = 0;
-            while i < HEADER.len() { if s.buf[i] != HEADER[i] { ok = false; } i += 1; }
-            check!(ok, "C20.debug_header");
-            let q = cellq();
-            if (q.y as usize) < rows {
-                let ch = s.buf[HEADER.len() + q.y as usize * 9 + q.x as usize];
-                let want = match d.get_pixel(q) { None => b' ', Some(BinaryColor::Off) => b'.', Some(BinaryColor::On) => b'#' };
-                note!("q", q); note!("char", ch as char);
-                check!(ch == want, "C20.debug_cell_char");
-                check!(s.buf[HEADER.len() + q.y as usize * 9 + 8] == b'\n', "C20.debug_row_break");
-            }
-            let rest = HEADER.len() + rows * 9;
-            if rows < 8 {
-                check!(s.buf[rest] == b'(' && s.buf[rest + 1] == b'0' + (8 - rows) as u8 && s.buf[rest + 2] == b' ', "C20.debug_rows_skipped");
-                check!(s.n > 2 && s.buf[s.n - 2] == b']' && s.buf[s.n - 1] == b'\n', "C20.debug_footer");
-            } else {
-                check!(s.n == rest + 2 && s.buf[rest] == b']' && s.buf[rest + 1] == b'\n', "C20.debug_footer");
-            }
-            check!(!s.non_ascii, "C20.debug_ascii");
+            debug_claims(&d, $rows as usize);
+        }
+    };
+}
+/// listed (concrete) cells, e.g. content that starts below empty rows
+macro_rules! c20_debug_listed {
+    ($name:ident, $rows:expr, [$(($x:expr, $y:expr, $on:expr)),*]) => {
+        #[cfg_attr(kani, kani::proof, kani::unwind(66))]
+        pub fn $name() {
+            let mut d = MockDisplay::<BinaryColor>::new();
+            reach!(side_ok(&d), "reach.side_is_8");
+            if !side_ok(&d) { return; }
+            $( d.set_pixel(Point::new($x, $y), Some(if $on { BinaryColor::On } else { BinaryColor::Off })); )*
+            debug_claims(&d, $rows);
         }
     };
 }
 c20_debug!(c20_q_s_debug_rows0, 0);
-c20_debug!(c20_q_s_debug_rows2, 2);
+// content below an untouched row (the formatting machinery costs about a minute per printed row:
+// two rows in the quick tier; six rows, a full display and symbolic rows in the thorough tier)
+c20_debug_listed!(c20_q_s_debug_listed_a, 2, [(3, 1, true), (7, 1, false)]);
+#[cfg(feature = "thorough")]
+c20_debug_listed!(c20_t_s_debug_listed_b, 6, [(2, 3, true), (7, 3, false), (0, 5, false)]);
+#[cfg(feature = "thorough")]
+c20_debug_listed!(c20_t_s_debug_listed_c, 8, [(7, 7, true)]);
+#[cfg(feature = "thorough")]
+c20_debug!(c20_t_s_debug_rows2, 2);
 #[cfg(feature = "thorough")]
 c20_debug!(c20_t_s_debug_rows8, 8);
 
